@@ -60,7 +60,7 @@ sh("git -C /repo apply %s" % patch)
 try:
     for p in props:
         t0 = time.time()
-        r = sh("cd /verif && python3 bin/check.py %s --tier %s" % (p, a.tier), timeout=3000)
+        r = sh("cd /verif && mkdir -p .work/seed_evidence && VERIF_EVIDENCE_DIR=/verif/.work/seed_evidence python3 bin/check.py %s --tier %s" % (p, a.tier), timeout=3000)
         lines = [l for l in r.stdout.splitlines() if l.startswith("VIOLATION") or l.startswith("CHECK-BROKEN") or l.startswith(p + " ")]
         keys = sorted({l.split("(")[-1].rstrip(")") for l in lines if l.startswith("VIOLATION")})
         meta["ran"].append({"check": p, "tier": a.tier, "exit": r.returncode, "violation_keys": keys[:12], "summary": [l for l in lines if l.startswith(p + " ")], "wall_s": round(time.time() - t0)})
